@@ -774,8 +774,31 @@ def shrink(trace, mode, kinds):
                 alive.discard(c)
         return not alive
 
+    def drop_ctx(t, x):
+        """remove context x (its spawn and all its operations), renumber the later ones"""
+        out = []
+        for op in t:
+            if op["c"] == x or (op["op"] == "spawn" and op["new"] == x):
+                continue
+            op = dict(op)
+            if op["c"] > x:
+                op["c"] -= 1
+            if op["op"] == "spawn" and op["new"] > x:
+                op["new"] -= 1
+            out.append(op)
+        return out
+
     cur = list(trace)
-    budget = 120
+    budget = 150
+    x = max(op["c"] for op in cur)
+    while x >= 1 and budget > 0:
+        # a context can go only if none of its descendants stays
+        cand = drop_ctx(cur, x)
+        if valid(cand):
+            budget -= 1
+            if still(cand):
+                cur = cand
+        x -= 1
     changed = True
     while changed and budget > 0:
         changed = False
@@ -850,29 +873,55 @@ def load_corpus():
     return out
 
 
+def evaluate(trace, mode):
+    """one programme on the implementation, judged by the specification -> picklable result"""
+    problems, r, spec = judge(None, trace, mode)
+    return {"trace": trace, "mode": mode, "problems": problems, "events": r.events,
+            "lsnaps": [tuple(x) for x in r.lsnaps], "finals": dict(r.finals), "nworkers": len(r.workers),
+            "nontrivial": spec.nontrivial}
+
+
+def _job(args):
+    """worker process of the thorough tier: programmes i0..i1-1 of the stream rooted at rng state `s`"""
+    state, i0, i1 = args
+    root = core.Rng(0)
+    root.s = state
+    out = []
+    for i in range(i0, i1):
+        trace, mode = nth_program(root, i)
+        out.append((i, evaluate(trace, mode)))
+    return out
+
+
+def nth_program(root, i):
+    mode = "asyncio" if i % 2 else "threads"
+    sub = root.fork("p%d" % i)
+    trace = gen_program(sub, maxops=sub.range(6, 34), maxctx=sub.range(1, 4), asyncio_mode=(mode == "asyncio"))
+    return trace, mode
+
+
 def run(ctx):
     rng = ctx.rng
     drv = core.Driver(DRIVER)
-    boost = 3 if getattr(ctx, "search_boost", False) else 1
-    cases = []          # (trace, mode, problems-so-far, run)
+    boost = 2 if getattr(ctx, "search_boost", False) else 1
+    cases = []
     lines = []
-    reported = 0
+    reported = [0]
 
-    def handle(trace, mode, origin):
-        nonlocal reported
-        problems, r, spec = judge(ctx, trace, mode)
-        key = (mode, prog_line(trace))
-        ctx.case(key, nontrivial=spec.nontrivial)
+    def account(res, origin):
+        trace, mode = res["trace"], res["mode"]
+        ctx.case((mode, prog_line(trace)), nontrivial=res["nontrivial"])
         ctx.stat("programs:" + mode)
         ctx.stat("ops", len(trace))
-        ctx.stat("records_delivered", sum(1 for e in r.events if e[0] == "d"))
-        ctx.stat("patcher_calls", sum(1 for e in r.events if e[0] == "p"))
-        ctx.stat("contexts", len(r.workers))
+        ctx.stat("records_delivered", sum(1 for e in res["events"] if e[0] == "d"))
+        ctx.stat("patcher_calls", sum(1 for e in res["events"] if e[0] == "p"))
+        ctx.stat("contexts", res["nworkers"])
+        ctx.stat("max_block_depth_%d" % max_depth(trace))
         for op in trace:
-            ctx.stat("op:" + op["op"])
-        for kind, text in problems:
-            if reported < 4:
-                reported += 1
+            ctx.stat("op:" + op["op"] + (":" + op["style"] if op["op"] == "enter" else ""))
+        for kind, text in res["problems"]:
+            if reported[0] < 4:
+                reported[0] += 1
                 small = shrink(trace, mode, {kind}) if len(trace) > 4 else trace
                 pr2, _, _ = judge(ctx, small, mode)
                 text2 = next((t for k2, t in pr2 if k2 == kind), text)
@@ -884,51 +933,65 @@ def run(ctx):
             else:
                 ctx.stat("violations_not_reported")
         lines.append(prog_line(trace))
-        cases.append((trace, mode, r))
+        cases.append(res)
 
     # ---- corpus first
     for name, item in load_corpus():
-        handle(item["trace"], item.get("mode", "threads"), "corpus/" + name)
+        account(evaluate(item["trace"], item.get("mode", "threads")), "corpus/" + name)
         ctx.stat("corpus")
 
-    # ---- random programmes
-    n = ctx.n(700, 60000) * boost
-    for i in range(n):
-        mode = "asyncio" if i % 2 else "threads"
-        sub = rng.fork("p%d" % i)
-        trace = gen_program(sub, maxops=sub.range(6, 34), maxctx=sub.range(1, 4), asyncio_mode=(mode == "asyncio"))
-        handle(trace, mode, "random #%d" % i)
-        if i < 2:
-            ctx.sample({"mode": mode, "line": prog_line(trace)})
+    # ---- random programmes (thorough: spread over worker processes; sub-seeds do not depend on order)
+    n = ctx.n(1200, 40000) * boost
+    state = rng.s
+    if ctx.quick or os.environ.get("VERIF_C12_SERIAL") == "1":
+        for i in range(n):
+            trace, mode = nth_program(rng, i)
+            account(evaluate(trace, mode), "random #%d" % i)
+            if i < 2:
+                ctx.sample({"mode": mode, "line": prog_line(trace)})
+    else:
+        import concurrent.futures
+        import multiprocessing
+        nproc = int(os.environ.get("VERIF_C12_PROCS", "4"))
+        chunk = 500
+        jobs = [(state, i0, min(n, i0 + chunk)) for i0 in range(0, n, chunk)]
+        with concurrent.futures.ProcessPoolExecutor(max_workers=nproc,
+                                                    mp_context=multiprocessing.get_context("fork")) as ex:
+            for part in ex.map(_job, jobs):
+                for i, res in part:
+                    account(res, "random #%d" % i)
+                    if i < 2:
+                        ctx.sample({"mode": res["mode"], "line": prog_line(res["trace"])})
 
     # ---- cv stream
     cv_cases = []
-    for i in range(ctx.n(400, 20000)):
+    for i in range(ctx.n(500, 20000)):
         ops = gen_cv(rng, rng.range(3, 25))
         cv_cases.append((ops, run_cv(ops)))
     cv_lines = ["cv " + " ".join(ops) for ops, _ in cv_cases]
 
     out = drv.run(lines + cv_lines)
     bad = 0
-    for (trace, mode, r), o in zip(cases, out):
+    for res, o in zip(cases, out):
         mev, mlg, mfin = parse_model(o)
         ctx.traces_validated += 1
-        fin = [r.finals.get(c) or {} for c in range(len(mfin))]
-        if mev != r.events or mlg != [tuple(s) for s in r.lsnaps] or [f or {} for f in mfin] != fin:
+        fin = [res["finals"].get(c) or {} for c in range(len(mfin))]
+        if mev != res["events"] or mlg != res["lsnaps"] or [f or {} for f in mfin] != fin:
             bad += 1
             ctx.stat("disagreements")
             if bad <= 3:
+                ev = res["events"]
                 i = 0
-                while i < len(r.events) and i < len(mev) and r.events[i] == mev[i]:
+                while i < len(ev) and i < len(mev) and ev[i] == mev[i]:
                     i += 1
                 detail = "event #%d: model %r, implementation %r" % (
-                    i, mev[i] if i < len(mev) else None, r.events[i] if i < len(r.events) else None) \
-                    if mev != r.events else "logger options / final context values: model %r %r, implementation %r %r" % (
-                        mlg, mfin, r.lsnaps, fin)
-                ctx.broke("correspondence Context.run", "%s\n%s\n%s" % (mode, prog_line(trace), detail))
-                ctx.violation("implementation and model disagree [%s]: %s" % (mode, detail),
-                              {"mode": mode, "trace": trace, "line": prog_line(trace), "kind": "correspondence"},
-                              kind="correspondence")
+                    i, mev[i] if i < len(mev) else None, ev[i] if i < len(ev) else None) \
+                    if mev != ev else "logger options / final context values: model %r %r, implementation %r %r" % (
+                        mlg, mfin, res["lsnaps"], fin)
+                ctx.broke("correspondence Context.run", "%s\n%s\n%s" % (res["mode"], prog_line(res["trace"]), detail))
+                ctx.violation("implementation and model disagree [%s]: %s" % (res["mode"], detail),
+                              {"mode": res["mode"], "trace": res["trace"], "line": prog_line(res["trace"]),
+                               "kind": "correspondence"}, kind="correspondence")
     badcv = 0
     for (ops, exp), o in zip(cv_cases, out[len(lines):]):
         ctx.case(("cv", " ".join(ops)))
@@ -937,6 +1000,20 @@ def run(ctx):
             badcv += 1
             if badcv <= 2:
                 ctx.broke("correspondence Py.ContextVars", "ops=%s\ncpython=%s\nmodel  =%s" % (" ".join(ops), exp, o))
+
+
+def max_depth(trace):
+    d, m = {}, 0
+    for op in trace:
+        c = op["c"]
+        if op["op"] == "enter":
+            d[c] = d.get(c, 0) + 1
+            m = max(m, d[c])
+        elif op["op"] == "exit":
+            d[c] -= 1
+        elif op["op"] == "raise":
+            d[c] -= op["k"]
+    return m
 
 
 def replay(ctx, rep):
